@@ -158,6 +158,11 @@ func (fr *frame) exec(in ssa.Instruction, st *State, reach string) {
 		}
 		r := fc.newRef(st, i.Comment)
 		fr.vals[i] = r
+		if privateCell(i) {
+			if _, isStruct := elemT.Underlying().(*types.Struct); !isStruct || isTimeType(elemT) {
+				fr.priv = append(fr.priv, privCell{r, elemT})
+			}
+		}
 		// zero-initialise
 		if isTimeType(elemT) {
 			fr.storeRefNoFrame(st, r, elemT, e.zero(STime, elemT))
